@@ -445,6 +445,14 @@ func run(c *fw.Ctx) {
 			md = semverops.Mutate(c.Rng, md)
 		}
 		one("C04 probe pypi.ParseMetadata " + fw.Hx(md))
+		if i%4 == 0 {
+			name, data, wheel := genArchive(c.Rng, md)
+			if wheel {
+				one("C04 probe pypi.WheelMetadata " + fw.Hx(string(data)))
+			} else {
+				one("C04 probe pypi.SdistMetadata " + fw.Hx(name) + " " + fw.Hx(string(data)))
+			}
+		}
 		if i%10 == 0 {
 			one("C04 probe pypi.SdistMetadata " + fw.Hx(semverops.Pick(c.Rng, "x.tar.gz", "x.zip", "x.tgz", "x")) + " " + fw.Hx(semverops.TokenSoup(c.Rng, 9)))
 			one("C04 probe pypi.WheelMetadata " + fw.Hx("PK\x03\x04"+semverops.TokenSoup(c.Rng, 9)))
